@@ -563,6 +563,46 @@ func workDir() string {
 	return filepath.Join(engine.Root, ".work", "c09", fmt.Sprintf("run-%d", os.Getppid()), fmt.Sprintf("w%d", os.Getpid()))
 }
 
+// warmUp: after a change of /repo (or under an overlay) the packages of the elk module have to be recompiled before
+// the first native build; worker 0 does that once (compiling, not linking, a package that imports the runtime) while
+// the other workers wait for its marker file, instead of sixteen workers compiling the same packages side by side.
+func warmUp(shard, n int) {
+	root := filepath.Join(engine.Root, ".work", "c09", fmt.Sprintf("run-%d", os.Getppid()))
+	marker := filepath.Join(root, "warm.done")
+	if _, err := os.Stat(marker); err == nil {
+		return
+	}
+	if shard != 0 && n > 1 {
+		for i := 0; i < 12000; i++ { // at most 40 minutes, then build anyway
+			if _, err := os.Stat(marker); err == nil {
+				return
+			}
+			time.Sleep(200 * time.Millisecond)
+		}
+		return
+	}
+	dir := filepath.Join(root, "warm")
+	os.MkdirAll(dir, 0o755)
+	sum, _ := os.ReadFile("/repo/go.sum")
+	os.WriteFile(filepath.Join(dir, "go.mod"), []byte(goModText), 0o644)
+	os.WriteFile(filepath.Join(dir, "go.sum"), sum, 0o644)
+	os.WriteFile(filepath.Join(dir, "warm.go"), []byte("package warm\n\nimport (\n\t_ \"github.com/elk-language/elk\"\n\t_ \"github.com/elk-language/elk/value\"\n\t_ \"github.com/elk-language/elk/value/symbol\"\n\t_ \"github.com/elk-language/elk/vm\"\n)\n"), 0o644)
+	args := []string{"build", "-tags", "native"}
+	if ov := os.Getenv("VERIF_OVERLAY"); ov != "" {
+		args = append(args, "-overlay", ov)
+	}
+	args = append(args, ".")
+	cmd := exec.Command("go", args...)
+	cmd.Dir = dir
+	cmd.Env = goEnv()
+	out, err := cmd.CombinedOutput()
+	os.RemoveAll(dir)
+	if err != nil {
+		panic("infrastructure: cannot compile the elk runtime for native builds:\n" + err.Error() + "\n" + firstLines(string(out), 40))
+	}
+	os.WriteFile(marker, []byte("ok\n"), 0o644)
+}
+
 // prepare translates every program of this worker's share and builds the combined binary (once per worker process,
 // in Spec.Setup).
 func prepare(thorough bool) {
@@ -602,6 +642,7 @@ func prepare(thorough bool) {
 	if len(goSrcs) == 0 {
 		return
 	}
+	warmUp(shard, n)
 	dir := workDir()
 	bin, errs := buildCombined(dir, goSrcs)
 	nativeBin = bin
